@@ -9,7 +9,7 @@ from ..core.explore import Check
 
 NAMES = ["x.mmm", "x.ms", "x.mmm.bak", "x.transpiled.mmm", ".mmm", "mmm", "x.MMM", "x.mmm~",
          "a b.mmm", "a.b.mmm", "é.mmm"]
-KINDS = ["file", "dir", "ln-file", "ln-dir", "ln-dangling"]
+KINDS = ["file", "dir", "ln-file", "ln-dir", "ln-dangling", "emptydir"]
 FORMS = ["rel", "dot", "abs", "slash"]
 
 
@@ -69,6 +69,8 @@ def build_tree(root, entries):
             os.makedirs(p)
             with open(os.path.join(p, "z.mmm"), "w") as f:
                 f.write("in-dir:" + name)
+        elif kind == "emptydir":
+            os.makedirs(p)
         elif kind == "ln-file":
             os.symlink("../outside/tf.mmm", p)
         elif kind == "ln-dir":
@@ -82,7 +84,7 @@ class C20(Check):
     id = "C20"
     level = "exploration"
     rule = ("every subset of <=k names from an 11-name alphabet x every assignment of entry kind "
-            "(file, directory, symlink to file, symlink to directory, dangling symlink) at the top level of DIR, "
+            "(file, non-empty directory, empty directory, symlink to file, symlink to directory, dangling symlink) at the top level of DIR, "
             "each tree also holding a sub-directory with all 11 names and an outside directory holding the "
             "symlink targets; invocation form (relative, '.', absolute, trailing slash) as a single deviation. "
             "A case is non-trivial when DIR holds at least one top-level entry whose extension is mmm "
@@ -138,7 +140,7 @@ class C20(Check):
         after = snapshot(root)
         viol = []
         desc = {"entries": ents, "form": form}
-        allowed = {os.path.join("d", n) for n, kd in ents if has_mmm_ext(n) and kd != "dir"}
+        allowed = {os.path.join("d", n) for n, kd in ents if has_mmm_ext(n) and kd not in ("dir", "emptydir")}
         removed = [p for p in before if p not in after]
         changed = [p for p in before if p in after and before[p] != after[p]]
         created = [p for p in after if p not in before]
@@ -168,6 +170,8 @@ class C20(Check):
             tags.append("removed-some")
         if any(kd == "dir" and has_mmm_ext(n) for n, kd in ents):
             tags.append("dir-named-mmm")
+        if any(kd == "emptydir" and has_mmm_ext(n) for n, kd in ents):
+            tags.append("emptydir-named-mmm")
         if any(kd.startswith("ln") and has_mmm_ext(n) for n, kd in ents):
             tags.append("symlink-named-mmm")
         return {"outcome": f"exit{res.exit}/removed{len(removed)}", "tags": tags, "viol": viol,
@@ -175,7 +179,7 @@ class C20(Check):
 
     def finish(self, stats, tier):
         errs = []
-        for t in ("removed-some", "dir-named-mmm", "symlink-named-mmm"):
+        for t in ("removed-some", "dir-named-mmm", "emptydir-named-mmm", "symlink-named-mmm"):
             if not stats["tags"].get(t):
                 errs.append(f"vacuity: no explored tree with tag {t}")
         return errs
